@@ -6,7 +6,9 @@ cd /verif
 if ! git -C /repo diff --quiet; then echo "/repo has uncommitted changes" >&2; exit 2; fi
 git -C /repo apply --check "$patch" || { echo "patch does not apply" >&2; exit 2; }
 git -C /repo apply "$patch"
-trap 'git -C /repo checkout -- . ' EXIT
+# evidence files are rewritten by every run: keep the clean-tree ones
+rm -rf /verif/out/evidence.keep && cp -r /verif/evidence /verif/out/evidence.keep
+trap 'git -C /repo checkout -- . ; rm -rf /verif/evidence; mv /verif/out/evidence.keep /verif/evidence' EXIT
 for p in "$@"; do
   out=$(VERIF_BUDGET_S=$budget ./check.sh $p quick 2>&1); rc=$?
   echo "== $p rc=$rc"
